@@ -38,7 +38,8 @@ oracles:   expected values come from TLC (EDGE/INDEX lines, trace validation); a
 negative controls at specification level (run in every check): ClampReadline = FALSE (readline
            as before commit f810caf) must violate Refines/SameResult; thorough also PadOdd = FALSE
            (IndexExact) and SeekFirst = FALSE (Refines/SameResult/Isolation); SharedHandlePerPath =
-           TRUE must violate FreshSeesOwn (every run).
+           TRUE must violate FreshSeesOwn (every run); IterYieldsAll = FALSE (__iter__ as before commit
+           225a5e1: one line per iterator) must violate Refines/SameResult (every run).
 domain (DESIGN D4): read() / read(n) with n >= 1 or n < 0 (read(0) excluded), readline(n) any n,
            readlines() without hint, seek(off, whence) with a non-negative target; the return
            value of seek() is not compared (ArMember.seek returns None like Python 2 files).
@@ -79,13 +80,11 @@ objects are created through one variant and queried through others within one hi
   readlines(h), h >= 1             recorded traces, judged by TLC (AReadLinesHint): complete lines from the position
                                    that reach the hint or the end -- io.BytesIO (stops at the hint) and ArMember
                                    (ignores it) are both admissible; size-stress leg: executed, position re-synchronised
-  list(member) / for line in member         LTS replay (always as the last call; TLC emits the expected outcome "every
-                                   remaining line") and recorded traces (AIter).  GENUINE DIVERGENCE on the unchanged tree:
-                                   ArMember.__iter__ yields only the first remaining line.  It is modelled as the named
-                                   deviation IterSingleLine (spec constant, DESIGN 2.3): tolerated while known_findings.json
-                                   does not list "C06-iter-single-line" as fixed -- an open entry prints KNOWN-FINDING, no
-                                   entry records it under spec_drift / reported_divergence_iter_single_line in the
-                                   evidence; any OTHER outcome of iteration is a violation (mutant c06-iter-chunked)
+  list(member) / for line in member         all legs: every remaining line, like readlines() (TLC: AIter; io.BytesIO:
+                                   list(f)).  Until commit 225a5e1 ArMember.__iter__ yielded only the first line (found
+                                   by this check, reported, repaired); known_findings.json lists C06-iter-single-line as
+                                   fixed, so that outcome is a VIOLATION again (history mutant c06-history-225a5e1); the
+                                   old generator is the spec-level negative control IterYieldsAll = FALSE
   seek(off) seek(off, whence) seek(offset=, whence=) whence 0/1/2
                                    all legs (non-negative targets; negative targets / whence 3: executed unjudged)
   tell() seekable()                tell: all legs, after every call on every member; seekable: constant True, not judged
@@ -112,7 +111,7 @@ from lts import LTS, skey, strip
 MANIFEST = dict(
     technique="TLA+ spec (ArMemberRef reference with io.BytesIO semantics + ArMember implementation layer over a flat cell archive) model-checked by TLC; complete reference LTS and index cases replayed on real archives through ArFile(fileobj) and ArFile(filename) with io.BytesIO as second oracle; recorded histories validated by TLC (TraceArMember)",
     text="TLC explores the closed state space of the implementation-level model of arfile.py (archive as one flat cell sequence with headers and pad bytes, index walk, per-member offset/end/cur, one shared or per-member file position) for every archive of up to 2 members with up to 3 data bytes over {newline, other} and checks in every reachable state / on every transition that it refines independent BytesIO-like files (same cells returned, same positions), that no cell outside the member is returned and that the member table is exact, i.e. for interleaved histories of any length over that alphabet. The binding is two-way: every transition of the reference LTS, random interleaved walks and the emitted index cases (duplicate names, empty/odd/even sizes, 0 members) are replayed on real archives in both opening modes with all members' tell() compared after each call, and random histories on larger archives (5 members, 64 bytes, archives written by GNU ar) are validated by TLC against the same actions. A process-level model (ArMemberProc: path contents, ArFile objects, rewrite of a path in place or by rename, close) is model-checked and its complete LTS replayed on real files, and all by-name legs re-use a handful of path names with earlier archives' members left unclosed, so that what an archive opened by name returns cannot silently depend on what the process opened under that name before.",
-    note="Small-scope: model archives have <= 2 members x <= 3 cells (index: <= 3 members); concretization of cells to bytes (1-5 bytes per cell, arbitrary non-newline bytes) is sampled. Domain D4: read(0) excluded, non-negative seek targets, readlines(h>=1) advisory (any complete-line result reaching the hint or the end); seek()'s return value is not compared. list(member)/for-loops yield only the first line on the unchanged tree: modelled as the named deviation IterSingleLine and reported (see evidence), every other iteration outcome is a violation. Member sizes beyond 257 bytes are judged through K-scaled TLC cases and io.BytesIO, not scanned by TLC. Trusted: TLC, the harness' ar writer, io.BytesIO. Members of an archive whose file was replaced underneath them are unspecified (executed, not judged). Spec-level negative controls (ClampReadline/PadOdd/SeekFirst = FALSE, SharedHandlePerPath = TRUE) and corrupted control traces are required to fail in every run.",
+    note="Small-scope: model archives have <= 2 members x <= 3 cells (index: <= 3 members); concretization of cells to bytes (1-5 bytes per cell, arbitrary non-newline bytes) is sampled. Domain D4: read(0) excluded, non-negative seek targets, readlines(h>=1) advisory (any complete-line result reaching the hint or the end); seek()'s return value is not compared. list(member)/for-loops must yield every remaining line (the single-line generator found by this check was repaired in 225a5e1; the old behaviour is a spec-level negative control and a history mutant). Member sizes beyond 257 bytes are judged through K-scaled TLC cases and io.BytesIO, not scanned by TLC. Trusted: TLC, the harness' ar writer, io.BytesIO. Members of an archive whose file was replaced underneath them are unspecified (executed, not judged). Spec-level negative controls (ClampReadline/PadOdd/SeekFirst = FALSE, SharedHandlePerPath = TRUE) and corrupted control traces are required to fail in every run.",
     design="5 (C06)")
 
 AR_BIN = "/usr/bin/ar"
@@ -363,6 +362,7 @@ def short(x, n=80):
 
 
 ITER_FINDING = "C06-iter-single-line"
+ITER_STRICT = [True]     # list(member) is an ordinary call compared with list(io.BytesIO) (set from iter_policy in run/replay)
 
 
 def iter_policy(ctx):
@@ -481,7 +481,7 @@ class Session:
             via = next_via(op)
         obs = do_call(self.members[m], op, args, via)
         cs = call_str(m, op, args, via)
-        if op in ("readlinesh", "iter"):
+        if op == "readlinesh" or (op == "iter" and not ITER_STRICT[0]):
             o = self.oracles[m]
             start = o.tell()
             full = o.readlines()
@@ -520,8 +520,8 @@ class Session:
         if obs["exc"]:
             msg = "%s raised/returned %s; %s %s" % (cs, obs["exc"], who, short(ref["ret"] if op != "tell" else ref["n"]))
         elif obs["ret"] != ref["ret"]:
-            msg = "%s returned %s; %s %s" % (cs, short(obs["ret"] if op == "readlines" else obs["ret"][0]),
-                                             who, short(ref["ret"] if op == "readlines" else ref["ret"][0]))
+            msg = "%s returned %s; %s %s" % (cs, short(obs["ret"] if op in LIST_OPS else obs["ret"][0]),
+                                             who, short(ref["ret"] if op in LIST_OPS else ref["ret"][0]))
         elif obs["n"] != ref["n"]:
             msg = "%s returned %r; %s %r" % (cs, obs["n"], who, ref["n"])
         elif tells != rtells:
@@ -611,8 +611,7 @@ class Conc:
                 "n": res["n"] * K, "tell": to[m] * K}
 
     def op(self, e):
-        """model edge -> concrete call with TLC's expectation (for list(member) also the outcome of
-        the named deviation IterSingleLine, emitted by TLC as a sibling edge)"""
+        """model edge -> concrete call with TLC's expectation"""
         m = e["args"][0] - 1
         o = {"m": m, "op": e["op"], "args": self.args(e["op"], e["args"][1:]), "exp": self.result(m, e["res"], e["to"])}
         if e.get("_dev") is not None:
@@ -813,7 +812,7 @@ def record(ctx, arch, mode, calls=None, rng=None, n=0, big=False, log=True):
                     continue            # a recorded relative seek that would leave the domain on this tree
                 made.append([m, op, list(args)])
                 msg, obs, t = s.step(m, op, args, ctx=ctx)
-                if op == "iter" and not obs["exc"] and len(obs["ret"]) < len(s.last_full):
+                if op == "iter" and not ITER_STRICT[0] and not obs["exc"] and len(obs["ret"]) < len(s.last_full):
                     if iter_policy(ctx) != "fixed":
                         iter_deviation(ctx, "%s over %s returned %s" % (call_str(m, op, args), short(s.datas[m]), short(obs["ret"])))
                 if msg and oracle_msg is None:
@@ -869,9 +868,9 @@ CONTROL_KINDS = ("last", "size", "byte", "tell", "dropread")
 
 
 def trace_cfg(ctx):
-    """TraceArMember.cfg; the named deviation IterSingleLine is enabled unless known_findings.json lists
-    it as fixed (DESIGN 2.3: deviations are named actions switched on by a constant, never a loosened
-    property)"""
+    """TraceArMember.cfg. known_findings.json lists C06-iter-single-line as fixed, so the former deviation
+    IterSingleLine stays FALSE (a fixed entry suppresses nothing); the switch is only flipped if that entry
+    were ever re-opened (DESIGN 2.3: deviations are named actions enabled by a constant)"""
     cfg = open(os.path.join(core.SPEC, "TraceArMember.cfg")).read()
     if "IterSingleLine = FALSE" not in cfg:
         raise core.MachineryError("constant IterSingleLine not found in TraceArMember.cfg")
@@ -1186,9 +1185,9 @@ def proc_leg(ctx, quick, rng):
 # ------------------------------------------------------------------ the check
 
 def lts_per_archive(edges):
-    """EDGE lines -> {archive key: (cells, LTS)}; the member index goes into args. list(member) has
-    two outcomes in the emitted LTS (IterSingleLine = TRUE): the property's (every line) is the edge,
-    the named deviation (one line) is attached to it as e["_dev"] and is not part of the graph."""
+    """EDGE lines -> {archive key: (cells, LTS)}; the member index goes into args. list(member) has one
+    outcome (every remaining line; IterSingleLine = FALSE in the LTS configurations). Were the constant
+    enabled, the second outcome would be attached to the edge as e["_dev"] and kept out of the graph."""
     groups = {}
     for e in edges:
         k = skey(e["a"])
@@ -1237,6 +1236,7 @@ def negative_control(ctx, base_cfg, const, expect):
 def run(ctx):
     quick = ctx.tier == "quick"
     rng = ctx.rng
+    ITER_STRICT[0] = iter_policy(ctx) == "fixed"
     ctx.assumptions += [
         "model archives: <= 2 members x <= %d data cells over {newline, other}, index cases <= 3 members x sizes 0/1/2 x 2 names; closed state space: histories of any length over this alphabet" % (2 if quick else 3),
         "domain D4: read()/read(n>=1 or n<0), readline(any n), readlines() without hint, seek to non-negative targets (whence 0/1/2); read(0) excluded; the return value of seek() is not compared",
@@ -1257,8 +1257,8 @@ def run(ctx):
             design["states"] += ctx.tlc_must_hold("ArMember", "MC_ArMember_quick_byname.cfg" if quick
                                                   else "MC_ArMember_byname.cfg", workers=4 if quick else 8).distinct
             negative_control(ctx, "MC_ArMember_quick.cfg", "ClampReadline", ("Refines", "SameResult"))
-            # finding control: __iter__ as written refines the reference only with the named deviation
-            negative_control(ctx, "MC_ArMember_quick.cfg", "IterSingleLine", ("Refines", "SameResult"))
+            # __iter__ as before 225a5e1 (one line per iterator) must not refine the reference
+            negative_control(ctx, "MC_ArMember_quick.cfg", "IterYieldsAll", ("Refines", "SameResult"))
             if not quick:
                 negative_control(ctx, "MC_ArMember_quick.cfg", "PadOdd", ("IndexExact",))
                 negative_control(ctx, "MC_ArMember_quick.cfg", "SeekFirst", ("Refines", "SameResult", "Isolation"))
@@ -1414,8 +1414,8 @@ def run_binding(ctx, quick, rng):
         if len(ctx.violations) >= 5:
             break
         concs = [Conc(rng, cells, canonical=(j == 0)) for j in range(nconc)]
-        paths = paths_without(g, "iter")      # list(member) only ever as the LAST call of a replay: after
-        ai += 1                               # the known deviation the real position leaves the model
+        paths = paths_without(g, "iter") if not ITER_STRICT[0] else g.paths()   # (a tolerated deviation of
+        ai += 1                               # list(member) would leave the model: then only as the last call)
         ncell = sum(len(d) for d in cells)
         bigk = [x for x in BIG_K if x * ncell <= (4 << 20) and (x < 500000 or ncell <= 2)]
         bigconc = Conc(rng, cells, K=bigk[ai % len(bigk)]) if ncell else None
@@ -1457,7 +1457,7 @@ def run_binding(ctx, quick, rng):
         if cells and not bad:
             for w in range(nwalk):
                 conc = concs[w % len(concs)] if w % 3 else (bigconc if w == 3 and bigconc is not None else Conc(rng, cells))
-                path = g.walk(rng, g.init, wlen, weight=lambda x: 0 if x["op"] == "iter" else 3 if x["from"] != x["to"] else 1)
+                path = g.walk(rng, g.init, wlen, weight=lambda x: (3 if x["from"] != x["to"] else 1) if ITER_STRICT[0] or x["op"] != "iter" else 0)
                 if w % 2 and path:            # end with list(member) / for line in member
                     its = [x for x in g.out.get(path[-1]["_t"], []) if x["op"] == "iter"]
                     if its:
@@ -1474,7 +1474,7 @@ def run_binding(ctx, quick, rng):
         if not quick and cells and not bad:
             for path in g.all_paths(2):
                 np2 += 1
-                if path[0]["op"] == "iter" or np2 % 2:
+                if (path[0]["op"] == "iter" and not ITER_STRICT[0]) or np2 % 2:
                     continue
                 mode = modes[(npaths2 + np2 // 2) % 2]
                 npaths2 += 1
@@ -1544,6 +1544,7 @@ def paths_without(g, op):
 
 
 def replay(ctx, case):
+    ITER_STRICT[0] = iter_policy(ctx) == "fixed"
     if case["kind"] == "proc":
         versions = {(p, v): Arch.from_json(a) for p, v, a in case["versions"]}
         msg, _ = proc_replay(ctx, case["edges"], versions, script=case["script"])
